@@ -468,14 +468,34 @@ def target_to_drawing():
             nh = Rv(z3.Real("node_height"))
             c.assume(nh.e > 0)
             made: List[Drawing] = []
+            custom = CustomLabels() if c.decide(z3.Bool("custom_labels_given"), "custom_labels given") else None
 
             def mk(canvas=None):
                 d = Drawing(symbolic=False)
                 made.append(d)
                 return d
             main.__globals__["Drawing"] = mk
-            ok, out = no_raise("to_drawing", lambda: main(me, node_height=nh, left_terminal_label="WE", right_terminal_label="CE", hide_labels=hide,
-                                                          running=False, custom_labels=None))
+            # the nested functions were verified for particular values of the variables they close over: the main part has to bind
+            # exactly those -- checked in the frame of the main part at the moment it calls draw_series
+            orig_ds = main.__globals__["__standins"]["draw_series"]
+
+            def first_draw_series(series, drawing, outermost=False):
+                import sys
+                loc = sys._getframe(1).f_locals
+                ids = loc.get("identifiers")
+                okv = isinstance(ids, Identifiers) and ids.root is t and loc.get("hide_labels") is hide and loc.get("custom_labels") is custom and loc.get("node_height") is nh \
+                    and loc.get("lookup") == consts["lookup"] and loc.get("unit_width") == consts["unit_width"]
+                ob = c.check("to_drawing: what the nested functions close over is the circuit's identifier map (for every element, whatever the label options), the caller's label options and node height, the routine's own tables",
+                             z3.BoolVal(okv), "call-pre")
+                if not okv:
+                    ob.detail = f"identifiers={type(ids).__name__}, hide_labels={loc.get('hide_labels')!r}, custom_labels={type(loc.get('custom_labels')).__name__}"
+                return orig_ds(series, drawing, outermost)
+            main.__globals__["__standins"]["draw_series"] = first_draw_series
+            try:
+                ok, out = no_raise("to_drawing", lambda: main(me, node_height=nh, left_terminal_label="WE", right_terminal_label="CE", hide_labels=hide,
+                                                              running=False, custom_labels=custom))
+            finally:
+                main.__globals__["__standins"]["draw_series"] = orig_ds
             if not ok:
                 return
             c.canary("to_drawing, at return")
@@ -865,6 +885,9 @@ def target_circuitikz():
             P, D = sd("positions"), sd("dimensions")
             root, e0 = st["root"], st["e0"]
             calls.append("phase_2")
+            import sys
+            loc = sys._getframe(1).f_locals
+            c.check("to_circuitikz: phase 2 finds the routine's own symbol table and the list of lines it is to extend", z3.BoolVal(loc.get("symbols") == symbols and loc.get("lines") is c.state.get("lines")), "call-pre")
             c.check("phase_2 is called with equal key sets", P.has == D.has, "call-pre")
             c.check("phase_2 is called with every placed node on or below the base line", G1(P), "call-pre")
             c.check("phase_2 is called with every placed parallel connection laid out", G2(P), "call-pre")
@@ -913,6 +936,16 @@ def target_circuitikz():
             orig = standins_main["phase_1_series"]
 
             def first(n, x, y):
+                import sys
+                loc = sys._getframe(1).f_locals
+                ids = loc.get("identifiers")
+                okv = isinstance(ids, Identifiers) and loc.get("hide_labels") is hide and loc.get("custom_labels") is None and loc.get("node_width") is nw and loc.get("node_height") is nh \
+                    and isinstance(loc.get("dimensions"), H.SymDict) and isinstance(loc.get("positions"), H.SymDict) and loc.get("dimensions") is not loc.get("positions") \
+                    and loc.get("short_counter") == 0 and loc.get("num_nested_parallels") == 0
+                ob = c.check("to_circuitikz: what the nested functions close over when phase 1 starts: the circuit's identifier map (whatever the label options), the caller's options, "
+                             "two empty dictionaries of their own, both counters at 0", z3.BoolVal(bool(okv)), "call-pre")
+                if not okv:
+                    ob.detail = f"identifiers={type(ids).__name__}, short_counter={loc.get('short_counter')!r}, num_nested_parallels={loc.get('num_nested_parallels')!r}"
                 st["root"] = n.t
                 c.assume(H.descent(n.t, e0), z3.Not(ischild(n.t)))
                 return orig(n, x, y)
@@ -1202,7 +1235,7 @@ def target_child_folds():
         def make_inv(varname, inverse):
             def inv(env):
                 n = st["n"]
-                acc = H._to_real(H._z(env.loc[varname]))
+                acc = H._to_real(H._z(env.unique(Rv, varname)))
                 return [("the accumulator is the fold over the children visited so far", acc == psum(n, env.i))]
             return inv
 
@@ -1215,7 +1248,7 @@ def target_child_folds():
         for module, qual, acc_name, inverse, what in cases:
             label = qual
             specs.inv[(label, 1)] = make_inv(acc_name, inverse)
-            real = H.build_function(core.find_def(module, qual), ns, vc, label=label)
+            real = H.build_function(core.find_def(module, qual), ns, vc, label=label, module=module)
             k = H.K_SERIES if qual.startswith("Series") else H.K_PARALLEL
 
             def go(c, real=real, k=k, label=label, inverse=inverse, what=what):
